@@ -684,12 +684,26 @@ fn test_components() {
 }
 
 /// 散列化「无序不重复词项容器」
-/// * ⚠️潜在假设：集合相同⇒遍历顺序相同⇒散列化顺序相同⇒散列化结果相同
+/// * 🚩集合的遍历顺序取决于各自的随机散列状态，故须以「与顺序无关」的方式散列化
 fn hash_term_set<H: std::hash::Hasher>(set: &TermSetType, state: &mut H) {
-    // 逐个元素散列化
-    for term in set {
-        term.hash(state)
+    hash_unordered(set.iter(), state)
+}
+
+/// 与顺序无关地散列化一组词项
+/// * 🚩各元素用固定的散列器分别散列化，再将结果（环绕）相加后写入
+/// * 🎯保证「判等相等⇒散列值相同」：集合的遍历顺序、对称陈述的主谓词顺序均不影响结果
+fn hash_unordered<'a, H: std::hash::Hasher>(
+    terms: impl Iterator<Item = &'a Term>,
+    state: &mut H,
+) {
+    use std::hash::Hasher;
+    let mut sum: u64 = 0;
+    for term in terms {
+        let mut hasher = std::collections::hash_map::DefaultHasher::new();
+        term.hash(&mut hasher);
+        sum = sum.wrapping_add(hasher.finish());
     }
+    state.write_u64(sum);
 }
 
 /// 实现/散列化逻辑
@@ -748,16 +762,17 @@ impl Hash for Term {
             ConjunctionParallel(set) => hash_term_set(set, state),
             // 陈述
             Inheritance(t1, t2)
-            | Similarity(t1, t2)
             | Implication(t1, t2)
-            | Equivalence(t1, t2)
             | ImplicationPredictive(t1, t2)
             | ImplicationConcurrent(t1, t2)
             | ImplicationRetrospective(t1, t2)
-            | EquivalencePredictive(t1, t2)
-            | EquivalenceConcurrent(t1, t2) => {
+            | EquivalencePredictive(t1, t2) => {
                 t1.hash(state);
                 t2.hash(state);
+            }
+            // 对称陈述：主谓词顺序不影响判等，故亦不应影响散列值
+            Similarity(t1, t2) | Equivalence(t1, t2) | EquivalenceConcurrent(t1, t2) => {
+                hash_unordered([t1.as_ref(), t2.as_ref()].into_iter(), state)
             }
         }
     }
